@@ -38,6 +38,8 @@ def SigOK (tr : List Ev) : Prop :=
 def PS (L : List Ev) (s : Sess) : Prop := PA s ∧ sig s.trace = L
 
 theorem PS_io (L : List Ev) : ClosedIO (PS L) where
+  hello := fun s ⟨a, b⟩ => sendHello_ind (P := PS L) s ⟨a, b⟩
+    (fun n => ⟨⟨a.1, a.2.1, (NCO_cons _ _).2 ⟨rfl, a.2.2⟩⟩, (sig_skip _ _ rfl).trans b⟩)
   hs := fun s ⟨a, b⟩ => ⟨PA_io.hs s a, b⟩
   fromBuf := fun s o u rest ⟨a, b⟩ hb => ⟨PA_io.fromBuf s o u rest a hb, (sig_skip _ _ rfl).trans b⟩
   fromTls := fun s u rest ⟨a, b⟩ ht hb hp => ⟨PA_io.fromTls s u rest a ht hb hp, (sig_skip _ _ rfl).trans b⟩
@@ -47,6 +49,7 @@ theorem PS_neg (L : List Ev) : ClosedNeg (PS L) where
   wHdr := fun s ⟨a, b⟩ => ⟨PA_neg.wHdr s a, (sig_skip _ _ (by rw [a.1]; rfl)).trans b⟩
   wStartTLS := fun s ⟨a, b⟩ => ⟨PA_neg.wStartTLS s a, (sig_skip _ _ (by rw [a.1]; rfl)).trans b⟩
   wOther := fun s id ⟨a, b⟩ => ⟨PA_neg.wOther s id a, (sig_skip _ _ (by rw [a.1]; rfl)).trans b⟩
+  choose := fun s ⟨a, b⟩ => ⟨PA_neg.choose s a, b⟩
   oracle := fun s o ⟨a, b⟩ => ⟨PA_neg.oracle s o a, b⟩
   neg := fun s m id ⟨a, b⟩ => ⟨PA_neg.neg s m id a, b⟩
   first := fun s ⟨a, b⟩ => ⟨PA_neg.first s a, b⟩
@@ -58,6 +61,7 @@ theorem PS_neg (L : List Ev) : ClosedNeg (PS L) where
 def SecP (s : Sess) : Prop := has s.state Secure = true
 
 theorem SecP_io : ClosedIO SecP where
+  hello := fun s a => sendHello_ind (P := SecP) s a (fun n => a)
   hs := fun s a => a
   fromBuf := fun s o u rest a _ => a
   fromTls := fun s u rest a _ _ _ => a
@@ -259,12 +263,16 @@ def CS (st0 : Mask) (L : List Ev) (s : Sess) : Prop := ClearPre st0 s ∧ sig s.
 def CSF (st0 : Mask) (L : List Ev) (s : Sess) : Prop := CS st0 L s ∧ s.first = true ∧ s.doRestart = true
 
 theorem CS_io (st0 : Mask) (L : List Ev) : ClosedIO (CS st0 L) where
+  hello := fun s ⟨a, b⟩ => sendHello_ind (P := CS st0 L) s ⟨a, b⟩
+    (fun n => ⟨ClearPre_ev st0 s _ rfl a, (sig_skip _ _ rfl).trans b⟩)
   hs := fun s ⟨a, b⟩ => ⟨(ClearPre_io st0).hs s a, b⟩
   fromBuf := fun s o u rest ⟨a, b⟩ hb => ⟨(ClearPre_io st0).fromBuf s o u rest a hb, (sig_skip _ _ rfl).trans b⟩
   fromTls := fun s u rest ⟨a, b⟩ ht hb hp => ⟨(ClearPre_io st0).fromTls s u rest a ht hb hp, (sig_skip _ _ rfl).trans b⟩
   fromClear := fun s u us rest ⟨a, b⟩ ht hb hp => ⟨(ClearPre_io st0).fromClear s u us rest a ht hb hp, (sig_skip _ _ rfl).trans b⟩
 
 theorem CSF_io (st0 : Mask) (L : List Ev) : ClosedIO (CSF st0 L) where
+  hello := fun s ⟨a, b⟩ => sendHello_ind (P := CSF st0 L) s ⟨a, b⟩
+    (fun n => ⟨⟨ClearPre_ev st0 s _ rfl a.1, (sig_skip _ _ rfl).trans a.2⟩, b⟩)
   hs := fun s ⟨a, b⟩ => ⟨(CS_io st0 L).hs s a, b⟩
   fromBuf := fun s o u rest ⟨a, b⟩ hb => ⟨(CS_io st0 L).fromBuf s o u rest a hb, b⟩
   fromTls := fun s u rest ⟨a, b⟩ ht hb hp => ⟨(CS_io st0 L).fromTls s u rest a ht hb hp, b⟩
@@ -295,8 +303,9 @@ theorem negotiateOne_shape (c : Cached) (res : NegRes) (st0 : Mask) (L : List Ev
       (fun s' => CS st0 L s' ∨ CS st0 (.wStartTLS false :: L) s') := by
   unfold negotiateOne
   rw [if_pos (by simp [hid])]
-  have hw := write_both (CS_io st0 L) .wStartTLS (fun s hp => CS_write st0 L .wStartTLS rfl rfl s hp) s hp
-  cases hh : write .wStartTLS s with
+  have hw := write_both (CS_io st0 L) .wStartTLS (fun s hp => CS_write st0 L .wStartTLS rfl rfl s hp)
+    (chooseConfig s) ⟨⟨hp.1.st, hp.1.sec, hp.1.tls, hp.1.neg, hp.1.nco⟩, hp.2⟩
+  cases hh : write .wStartTLS (chooseConfig s) with
   | stop w s' => rw [hh] at hw; exact Or.inl hw
   | ok a s1 =>
     rw [hh] at hw
@@ -468,17 +477,17 @@ theorem loop_shape (cfg : Cfg) (st0 : Mask) (hc : Compliant cfg.toFCfg st0) (fue
         have := loop_PS cfg fullSig fuel (if out.rw == .tls then false else (teeOn || cfg.tee)) _ hps
         exact ⟨Or.inr (Or.inr (Or.inr this.1.2)), this.2, fun _ _ _ _ => this.1.2⟩
 
-theorem run_shape (cfg : Cfg) (st0 : Mask) (hc : Compliant cfg.toFCfg st0)
+theorem run_shape (cfg : Cfg) (env : Env) (st0 : Mask) (hc : Compliant cfg.toFCfg st0)
     (hs : has st0 Secure = false) (hr : has st0 Ready = false) (i : Input) (fuel : Nat) :
-    let tr := (run cfg st0 i fuel).1
+    let tr := (run cfg env st0 i fuel).1
     (tr.filter isSig = [] ∨ tr.filter isSig = [.wHdr false] ∨ tr.filter isSig = [.wHdr false, .wStartTLS false] ∨
       tr.filter isSig = [.wHdr false, .wStartTLS false, .switch]) ∧
-    (∀ st t h, (run cfg st0 i fuel).2 = .done st t h →
+    (∀ st t h, (run cfg env st0 i fuel).2 = .done st t h →
       tr.filter isSig = [.wHdr false, .wStartTLS false, .switch]) := by
   unfold run
   split
   · exact ⟨Or.inl rfl, fun _ _ _ h => by cases h⟩
-  · have h := loop_shape cfg st0 hc fuel false (init st0 i)
+  · have h := loop_shape cfg st0 hc fuel false (init env st0 i)
       (Or.inr ⟨⟨⟨⟨rfl, hs, rfl, rfl, fun e he => (by cases he)⟩, rfl⟩, rfl, rfl⟩, hr⟩)
     obtain ⟨h1, _, h3⟩ := h
     have hrev : ∀ l : List Ev, (l.reverse).filter isSig = (sig l).reverse := by
